@@ -107,6 +107,9 @@ func (s *vfServerStream) Recv() (*adminservice.StreamWorkflowReplicationMessages
 	}
 }
 func (s *vfServerStream) Send(m *adminservice.StreamWorkflowReplicationMessagesResponse) error {
+	// gRPC serialises the message inside Send: under the scheduler the moment the message is read is a
+	// scheduling point of its own (a no-op for goroutines the scheduler does not manage)
+	vrt.Point("stream", "send")
 	if s.broken || s.ctx.Err() != nil {
 		return errVfBroken
 	}
@@ -168,6 +171,7 @@ func (c *vfClientStream) Recv() (*adminservice.StreamWorkflowReplicationMessages
 	}
 }
 func (c *vfClientStream) Send(m *adminservice.StreamWorkflowReplicationMessagesRequest) error {
+	vrt.Point("stream", "send")
 	if c.broken || c.ctx.Err() != nil {
 		return errVfBroken
 	}
